@@ -824,12 +824,29 @@ def sample_of(case):
 def shrink_candidates(case, viol):
     ops = case['ops']
     if case['kind'] == 'illegal':
+        # only drop steps that cannot turn the illegal declaration into a legal one
+        last = ops[-1]
+
+        def scen_set(o):
+            to = o.get('to')
+            if isinstance(to, dict):
+                v = to.get('scen', to.get('fset', [None, None])[1])
+                if isinstance(v, dict):
+                    v = v.get('loc', v.get('iloc'))
+                return set(v) if isinstance(v, list) else {v}
+            return None
+        last_sc = scen_set(last) if last['op'] == 'adapt' else None
         for i, op in enumerate(ops[:-1]):
-            if op['op'] in ('model', 'amb') or op.get('expect'):
+            if op.get('expect'):
                 continue
-            c = copy.deepcopy(case)
-            del c['ops'][i]
-            yield c
+            drop = op['op'] in ('supp', 'prob', 'expt', 'gc')
+            if op['op'] == 'adapt' and last_sc is not None and op.get('tgt') == last.get('tgt'):
+                sc = scen_set(op)
+                drop = sc is not None and not (sc & last_sc)
+            if drop:
+                c = copy.deepcopy(case)
+                del c['ops'][i]
+                yield c
         return
     if len(case.get('solves', [])) > 1:
         for i in range(len(case['solves']) - 1):
